@@ -159,7 +159,10 @@ Value = Tuple[Any, ...]     # ('mod', name) | ('obj', module, qual tuple)
 
 class Gen:
     def __init__(self, rng: random.Random, size: str = 'normal', shadow: float = 0.0, reexport: float = 0.35,
-                 star: float = 0.5):
+                 star: float = 0.5, simple: bool = False):
+        # simple = the subset of the whole-project theorem: imports of every form, defs, classes; no alias
+        # assignment, no base expression, no star import, no re-export
+        self.simple = simple
         self.rng = rng
         self.size = size
         self.p_shadow = shadow
@@ -340,6 +343,8 @@ class Gen:
             cands = [k for k in cands if not k.startswith('__')]
             return r.choice(cands) if cands else None
 
+        if self.simple:
+            kinds = [k for k in kinds if k not in ('alias', 'star')]
         for _ in range(n_stmts):
             k = r.choice(kinds)
             if k == 'def':
@@ -351,7 +356,7 @@ class Gen:
                 n = self.fresh('C', 0.1)
                 base = None
                 basev = None
-                if r.random() < 0.6:
+                if r.random() < 0.6 and not self.simple:
                     cands = []
                     for nm in visible_names():
                         v = lookup(nm)
@@ -534,7 +539,7 @@ class Gen:
                 own = [k for k, v in self.ns[m].items() if v[0] == 'obj' and v[1] == m and not k.startswith('_')]
                 r.shuffle(own)
                 al = own[:r.randint(0, 2)]
-                if r.random() < self.p_reexport:
+                if r.random() < self.p_reexport and not self.simple:
                     cands = []
                     for s in body:
                         if s[0] == 'from':
